@@ -400,7 +400,9 @@ class GriffeLoader:
             if not self_alias and (not already_present or overwrite):
                 alias = Alias(
                     new_member.name,
-                    new_member,
+                    # An alias to an unresolved alias would be born "resolved" with a dangling chain:
+                    # let it be resolved lazily through the collection, like any other alias.
+                    new_member.path if new_member.is_alias else new_member,
                     lineno=alias_lineno,
                     endlineno=alias_endlineno,
                     parent=obj,  # type: ignore[arg-type]
